@@ -1,6 +1,88 @@
+import HranoModel.Lemmas.Fixed
+import HranoModel.Lemmas.Walk
 import HranoModel.Model.Options
-import HranoModel.Model.Sink
-import HranoModel.Model.Chan
-/-! C14 property theorems (statements only in this file; helper lemmas live in Lemmas/) -/
+/-!
+C14 — `print` emits a normal form that reads back to the same log.
+
+Property theorems only.  Proved here: the numeric side (a printed quantity prints again as itself) and the
+structure of what `print` writes.  NOT yet proved (kept at full strength as a comment, checked only by
+the correspondence and the implementation oracle of the C14 check):
+
+    theorem print_reparse (l : Layout) (days : List LogDay) (h : LogWF days) :
+      walk l none none none (Parser.events cc (perDay (renderPrint {dateLayout := l}) days))
+        = (days.map round2, none)
+
+It needs the tokenizer lemma of C04 instantiated at the layout `print` uses, `Date.parse l (Date.format l c)
+= some c`, and `parseFloat (fmtFixed 2 q) = .value (printedValue 2 q)`.
+-/
 namespace Hrano.C14
+open Hrano Hrano.Report Hrano.Num
+
+/-- what `print` writes for a day: the heading in the *same* layout the log is read with (fix recorded in
+    known-findings.txt), the notes in their documented forms, one `  - name: quantity` line per distinct
+    food, and a blank line -/
+theorem print_day (cfg : RCfg) (d : LogDay) :
+    renderPrint cfg d = Date.format cfg.dateLayout d.date ++ [58, 10]
+      ++ (d.notes.map (fun m =>
+            if !m.name.isEmpty then [32, 32, 35, 32] ++ m.name ++ [58, 32] ++ m.value ++ [10]
+            else [32, 32, 35, 32] ++ m.value ++ [10])).flatten
+      ++ (d.elements.map (fun e => [32, 32, 45, 32] ++ e.name ++ [58, 32] ++ fmtFixed Facts.printPrecision e.value ++ [10])).flatten
+      ++ [10] := rfl
+
+/-- the reporters print dates in the layout the options parse them with -/
+theorem print_uses_parse_layout (s : Settings) (ld : Options.Loaded) (h : Options.load s = .ok ld) :
+    ld.opts.rc.dateLayout = ld.opts.layout := by
+  unfold Options.load at h
+  split at h
+  · cases h
+  · cases hl : Date.parseLayout (Options.effective s).fmtRaw with
+    | none => rw [hl] at h; cases h
+    | some layout =>
+      rw [hl] at h
+      simp only at h
+      cases hn : Options.nowOf s layout with
+      | error e => rw [hn] at h; cases h
+      | ok now =>
+        rw [hn] at h
+        simp only at h
+        cases hb : Options.boundsOf s now layout with
+        | error e => rw [hb] at h; cases h
+        | ok bnd =>
+          rw [hb] at h
+          simp only at h
+          cases hv : Options.validate s (Options.effective s) with
+          | error e => rw [hv] at h; cases h
+          | ok u =>
+            rw [hv] at h
+            simp only at h
+            cases hc : Options.cmdOf s now layout with
+            | error e => rw [hc] at h; cases h
+            | ok cmd =>
+              rw [hc] at h
+              simp only [Except.ok.injEq] at h
+              subst h
+              rfl
+
+/-- print over a history is the concatenation of the days' blocks (no state between days) -/
+theorem print_days (cfg : RCfg) (a b : List LogDay) :
+    App.perDay (renderPrint cfg) (a ++ b) = App.perDay (renderPrint cfg) a ++ App.perDay (renderPrint cfg) b :=
+  App.perDay_append _ a b
+
+/-- **a printed quantity prints again as itself**: the exact value of the two-decimal text, printed with two
+    decimals, is the same text (the case excluded is a negative value rounded to zero, where the program
+    keeps the sign in a float's negative zero) -/
+theorem printed_quantity_stable (q : Q) (h : q.num < 0 → roundedAt Facts.printPrecision q ≠ 0) :
+    fmtFixed Facts.printPrecision (printedValue Facts.printPrecision q) = fmtFixed Facts.printPrecision q :=
+  fmtFixed_stable _ q h
+
+/-- printing rounds to the nearest two-decimal value -/
+theorem printed_quantity_close (q : Q) :
+    2 * (roundedAt 2 q * q.den) ≤ 2 * (q.num.natAbs * 100) + q.den
+    ∧ 2 * (q.num.natAbs * 100) ≤ 2 * (roundedAt 2 q * q.den) + q.den :=
+  roundHalfEven_close _ _ (Rat.den_pos q)
+
+/-! non-vacuity -/
+example : fmtFixed 2 ((3 : Q) / 8) = [48, 46, 51, 56] := by decide +kernel        -- 0.375 → 0.38
+example : fmtFixed 2 (printedValue 2 ((3 : Q) / 8)) = [48, 46, 51, 56] := by decide +kernel
+
 end Hrano.C14
